@@ -215,6 +215,66 @@ func runC20(c *Ctx) {
 		c.Fn(FuncName(fn))
 		ok, det := lookupShape(fn, compField, parentField)
 		c.Check(ok, "C20.4-lookup-order", FuncName(fn)+"|local-first-then-parents", p.Pos(fn.Pos()), det)
+		// every component the lookup hands out is read from a components slice during THIS walk:
+		// an answer taken from anywhere else (a cache, a field) is not re-resolved "locally first,
+		// then through the parents" and goes stale when a nearer container registers the name later
+		var fromWalk func(v ssa.Value, d int) bool
+		fromWalk = func(v ssa.Value, d int) bool {
+			if v == nil || d > 12 {
+				return false
+			}
+			switch x := v.(type) {
+			case *ssa.Const:
+				return true
+			case *ssa.Extract:
+				return fromWalk(x.Tuple, d+1)
+			case *ssa.TypeAssert:
+				return fromWalk(x.X, d+1)
+			case *ssa.ChangeInterface:
+				return fromWalk(x.X, d+1)
+			case *ssa.MakeInterface:
+				return fromWalk(x.X, d+1)
+			case *ssa.Phi:
+				for _, e := range x.Edges {
+					if !fromWalk(e, d+1) {
+						return false
+					}
+				}
+				return true
+			case *ssa.UnOp:
+				if ia, isIA := x.X.(*ssa.IndexAddr); isIA {
+					return IsLoadOfField(ia.X, compField)
+				}
+				vals, unk := Origins(x)
+				if unk || len(vals) == 0 || (len(vals) == 1 && vals[0] == v) {
+					return false
+				}
+				for _, o := range vals {
+					if IsZeroMarker(o) {
+						continue
+					}
+					if !fromWalk(o, d+1) {
+						return false
+					}
+				}
+				return true
+			}
+			return IsZeroMarker(v)
+		}
+		badRet := ""
+		for _, ri := range Returns(fn) {
+			ret := ri.(*ssa.Return)
+			if ret.Block() == fn.Recover {
+				continue
+			}
+			if len(ret.Results) == 0 {
+				continue
+			}
+			if rv := ret.Results[0]; !fromWalk(rv, 0) {
+				badRet = "the value returned at " + p.Pos(InstrPos(ret)) + " is not an element read from a components slice during the walk (" + describeOperand(rv) + ")"
+			}
+		}
+		c.Check(badRet == "", "C20.4-lookup-order", FuncName(fn)+"|answers come from the walk", p.Pos(fn.Pos()), orDefault(badRet, "every returned component is an element of a container's components slice read during this lookup"))
 	}
 	// the parent link: written only by ChildApp, and always to the app ChildApp
 	// was called on (a child resolves through *every* ancestor)
